@@ -1326,8 +1326,21 @@ def l_fresh( ctx ):
         return any( a is loop for a in src.ancestors( node ))
     for rel in ( 'server/enip/parser.py', 'server/enip/device.py', 'server/enip/logix.py' ):
         src = ctx.src( rel )
+        # the produce() functions and the helpers of the same file they call ( by simple name, transitively ): a repetition moved into a
+        # helper is still a repetition of the producer
+        chosen = { qn for qn in src.defs if qn.split( '.' )[-1] == 'produce' }
+        work = sorted( chosen )
+        while work:
+            for fn in src.defs[work.pop()]:
+                for c in ast.walk( fn ):
+                    last = ( call_name( c ) or '' ).split( '.' )[-1] if isinstance( c, ast.Call ) else ''
+                    if last and last != 'produce':
+                        for q2 in src.defs:
+                            if q2.split( '.' )[-1] == last and q2 not in chosen:
+                                chosen.add( q2 )
+                                work.append( q2 )
         for qn, defs in sorted( src.defs.items()):
-            if qn.split( '.' )[-1] != 'produce':
+            if qn not in chosen:
                 continue
             for fn in defs:
                 if not isinstance( fn, ast.FunctionDef ):
